@@ -14,6 +14,7 @@ package main
 
 import (
 	"fmt"
+	"os"
 	"go/token"
 	"go/types"
 	"sort"
@@ -401,6 +402,9 @@ func errInfoOf(v ssa.Value) *errInfo {
 				if !ok || ei.taint[val] {
 					continue
 				}
+				if _, isMC := ins.(*ssa.MakeClosure); isMC {
+					continue // a captured variable is followed into the closure (cellMembers); the closure value is not the error
+				}
 				for _, op := range operandsOf(ins) {
 					if !ei.taint[op] {
 						continue
@@ -774,6 +778,11 @@ func (e *nilEnv) eval(x ssa.Value, depth int) (nonNil, known bool) {
 		case "fmt.Errorf", "errors.New":
 			return true, true
 		}
+		if b, ok := y.Call.Value.(*ssa.Builtin); ok && b.Name() == "append" && len(y.Call.Args) == 2 {
+			if _, isConst := y.Call.Args[1].(*ssa.Const); !isConst {
+				return true, true // a list something was appended to is not empty
+			}
+		}
 	case *ssa.Phi:
 		first, res := true, false
 		for _, ed := range y.Edges {
@@ -936,6 +945,12 @@ func (r *Run) swallowedWith(v ssa.Value, t errTest, carrier ssa.Value) (bool, st
 			}
 		}
 	}
+	if os.Getenv("PEB_ERRDEBUG") != "" && strings.Contains(fnName(fn), os.Getenv("PEB_ERRDEBUG")) {
+		fn.WriteTo(os.Stderr)
+		for k := range tainted {
+			fmt.Fprintln(os.Stderr, "TAINT", k.Name(), k)
+		}
+	}
 	env := newNilEnv()
 	dominatingFacts(t.iff.Block(), env)
 	if s := t.iff.Block().Succs; len(s) == 2 && s[0] != s[1] {
@@ -952,8 +967,10 @@ func (r *Run) swallowedWith(v ssa.Value, t errTest, carrier ssa.Value) (bool, st
 	type edge struct{ from, to *ssa.BasicBlock }
 	seen := map[edge]bool{}
 	var why string
-	var walk func(b, pred *ssa.BasicBlock, env *nilEnv, first bool) bool // true when a swallowing path exists
-	walk = func(b, pred *ssa.BasicBlock, env *nilEnv, first bool) bool {
+	// joined: the path is past the point where failure and success side meet, with the error
+	// still carried by a phi or a variable; from there on only the way the function is left counts
+	var walk func(b, pred *ssa.BasicBlock, env *nilEnv, first, joined bool) bool // true when a swallowing path exists
+	walk = func(b, pred *ssa.BasicBlock, env *nilEnv, first, joined bool) bool {
 		if seen[edge{pred, b}] {
 			return false
 		}
@@ -965,12 +982,14 @@ func (r *Run) swallowedWith(v ssa.Value, t errTest, carrier ssa.Value) (bool, st
 				idx = i
 			}
 		}
+		// phis are assigned in parallel: evaluate every incoming value before updating any
+		newPhi := map[*ssa.Phi]*bool{}
 		for _, ins := range b.Instrs {
 			phi, ok := ins.(*ssa.Phi)
 			if !ok {
 				break
 			}
-			delete(env.val, phi)
+			newPhi[phi] = nil
 			if idx < 0 || idx >= len(phi.Edges) {
 				continue
 			}
@@ -978,13 +997,23 @@ func (r *Run) swallowedWith(v ssa.Value, t errTest, carrier ssa.Value) (bool, st
 				carried = true
 			}
 			if nn, known := env.eval(phi.Edges[idx], 0); known {
-				env.val[phi] = nn
+				newPhi[phi] = &nn
 			}
 		}
-		if !first && okReach[b] && !t.fail.Dominates(b) && !carried && holdsInCell(env) == nil {
-			// re-joined the success path (merge block or loop header) and nothing carries the error
-			why = "execution continues at " + r.P.pos(firstPos(b)) + " as if the call had succeeded"
-			return true
+		for phi, nn := range newPhi {
+			if nn == nil {
+				delete(env.val, phi)
+			} else {
+				env.val[phi] = *nn
+			}
+		}
+		if !first && !joined && okReach[b] && !t.fail.Dominates(b) {
+			if !carried && holdsInCell(env) == nil {
+				// re-joined the success path (merge block or loop header) and nothing carries the error
+				why = "execution continues at " + r.P.pos(firstPos(b)) + " as if the call had succeeded"
+				return true
+			}
+			joined = true
 		}
 		for _, ins := range b.Instrs {
 			if _, isPhi := ins.(*ssa.Phi); isPhi {
@@ -1050,7 +1079,7 @@ func (r *Run) swallowedWith(v ssa.Value, t errTest, carrier ssa.Value) (bool, st
 					if !known {
 						e2.assume(iff.Cond, i == 0, true)
 					}
-					if walk(s, b, e2, false) {
+					if walk(s, b, e2, false, joined) {
 						return true
 					}
 				}
@@ -1062,13 +1091,13 @@ func (r *Run) swallowedWith(v ssa.Value, t errTest, carrier ssa.Value) (bool, st
 			if len(b.Succs) > 1 {
 				e2 = env.clone()
 			}
-			if walk(s, b, e2, false) {
+			if walk(s, b, e2, false, joined) {
 				return true
 			}
 		}
 		return false
 	}
-	if walk(t.fail, t.iff.Block(), env, true) {
+	if walk(t.fail, t.iff.Block(), env, true, false) {
 		return true, why
 	}
 	return false, ""
